@@ -17,6 +17,8 @@ CLAIMED = {
             "exceptions are compared by family (library ValueError-derived class defined in curies / anything else), not by exact subclass or message"),
     "C20": ("6 C20", "C20_prefix / C20_curie: with the patterns and re methods that the translator reads from w3c.py on every run (GenObl_C20: Gen = W3C by reflexivity), is_w3c_prefix equals the NCName grammar and is_w3c_curie equals the documented CURIE grammar for ALL strings and every whitespace table in which '/' is not whitespace; the derivative matcher is proved correct against a declarative regex semantics (deriv_ok, fullmatch_ok, match_ok). C20_match_refuted documents defect D9.",
             "the control flow of is_w3c_curie (bracket test, strip test, partition) is hand-modelled and tied by the exhaustive correspondence block; semantics of Python's re engine is modelled for the subset {literals, classes, \\s, *, ?, |, groups, ^ and $ at the ends, match/fullmatch}"),
+    "C19": ("6 C19", "C19_records (the dictionary-of-sets loop equals the naive specification), C19_set_fun (function of the set of URIs), C19_valid (always a strict converter, via injectivity of decimal numbering), C19_shape_*, C19_cutoff, C19_roundtrip (no cutoff: every learnable URI compresses and expands back), C19_known_skip; for all URI lists, delimiter lists, cutoffs, metaprefixes and alnum tables. Known finding K1 (GitHub issue URIs are skipped on purpose) is excluded in the theorem and shown by C19_github_refuted; the run-time predicate evaluates the property as written, so K1 cases print KNOWN-FINDING.",
+            "round trip required only for metaprefixes without ':'; delimiter lists without the empty string; str.isalnum enters as a per-case table computed by the running Python"),
 }
 NOT_YET = {}
 
